@@ -13,9 +13,68 @@ func vClipRect(name string, bound int64) Rect64 {
 
 // H_C06_rect: RectClipPaths64 of one symbolic axis-aligned rectangle path by a
 // symbolic rectangle. shape 0: rectangle path, either orientation.
+// vCShape: a concave rectilinear 8-gon, a rectangle with a notch cut in from
+// one side (which: 0 right, 1 left, 2 top side y3, 3 bottom side y0), either orientation.
+func vCShape(name string, side int64, bound int64) Path64 {
+	x0, x1, x3 := vInt(name+"x0", -bound, bound), vInt(name+"x1", -bound, bound), vInt(name+"x3", -bound, bound)
+	y0, y1, y2, y3 := vInt(name+"y0", -bound, bound), vInt(name+"y1", -bound, bound), vInt(name+"y2", -bound, bound), vInt(name+"y3", -bound, bound)
+	vAssume(x0 < x1)
+	vAssume(x1 < x3)
+	vAssume(y0 < y1)
+	vAssume(y1 < y2)
+	vAssume(y2 < y3)
+	p := Path64{{x0, y0}, {x3, y0}, {x3, y1}, {x1, y1}, {x1, y2}, {x3, y2}, {x3, y3}, {x0, y3}}
+	switch side {
+	case 1: // mirror in x
+		for i := range p {
+			p[i].X = -p[i].X
+		}
+		p = vReversed(p)
+	case 2: // transpose
+		for i := range p {
+			p[i].X, p[i].Y = p[i].Y, p[i].X
+		}
+		p = vReversed(p)
+	case 3:
+		for i := range p {
+			p[i].X, p[i].Y = p[i].Y, -p[i].X
+		}
+	}
+	if vBool(name + "rev") {
+		p = vReversed(p)
+	}
+	return p
+}
+
 func H_C06_rect(shape int64) {
 	rect := vClipRect("r", vB29)
-	paths := Paths64{vRect("p", vB29)}
+	var paths Paths64
+	if shape == 0 {
+		paths = Paths64{vRect("p", vB29)}
+	} else if shape <= 4 {
+		paths = Paths64{vCShape("p", shape-1, vB29)}
+	} else {
+		// "arms cut": the notch side of the C is cut off by the matching side of
+		// the clip rectangle, everything else lies strictly inside it, so the
+		// result touches that rectangle side in two separate stretches.
+		paths = Paths64{vCShape("p", shape-5, vB29)}
+		g := vGridOf(paths)
+		nx, ny := len(g.X), len(g.Y)
+		switch shape - 5 {
+		case 0:
+			vAssume(vAnd(g.X[nx-2] < rect.right, rect.right < g.X[nx-1]))
+			vAssume(vAnd(rect.left < g.X[0], vAnd(rect.top < g.Y[0], rect.bottom > g.Y[ny-1])))
+		case 1:
+			vAssume(vAnd(g.X[0] < rect.left, rect.left < g.X[1]))
+			vAssume(vAnd(rect.right > g.X[nx-1], vAnd(rect.top < g.Y[0], rect.bottom > g.Y[ny-1])))
+		case 2:
+			vAssume(vAnd(g.Y[ny-2] < rect.bottom, rect.bottom < g.Y[ny-1]))
+			vAssume(vAnd(rect.top < g.Y[0], vAnd(rect.left < g.X[0], rect.right > g.X[nx-1])))
+		case 3:
+			vAssume(vAnd(g.Y[0] < rect.top, rect.top < g.Y[1]))
+			vAssume(vAnd(rect.bottom > g.Y[ny-1], vAnd(rect.left < g.X[0], rect.right > g.X[nx-1])))
+		}
+	}
 	in := Paths64{append(Path64{}, paths[0]...)}
 	var out Paths64
 	panicked, msg := vCatch(func() { out = RectClipPaths64(rect, paths) })
@@ -33,23 +92,14 @@ func H_C06_rect(shape int64) {
 		}
 	}
 	rp := Paths64{rect.AsPath()}
-	g := vGridOf(in, rp, out)
-	for i := 0; i+1 < len(g.X); i++ {
-		for j := 0; j+1 < len(g.Y); j++ {
-			wi, _ := g.vCellWind(in, i, j)
-			wr, _ := g.vCellWind(rp, i, j)
-			wo, ok := g.vCellWind(out, i, j)
-			vAssert("C06.rectilinear-output", ok)
-			want := 0
-			if wr != 0 {
-				want = wi
-			}
-			if wo != want {
-				vCover("C06.mismatch-cell")
-				vAssert("C06.winding", !g.vCellFarProbe(i, j, 2, vB29+8, in, rp))
-			}
-		}
-	}
+	// region at a symbolic probe: inside the rectangle (more than 2 from its
+	// boundary and from every input edge) the winding number is preserved,
+	// outside it is zero
+	pr := vPt("probe", vB29+8)
+	far := vAnd(vFar(in, pr, 2), vFar(rp, pr, 2))
+	inRect := vAnd(vAnd(pr.X > rect.left, pr.X < rect.right), vAnd(pr.Y > rect.top, pr.Y < rect.bottom))
+	want := vIte(inRect, vWind(in, pr), 0)
+	vAssert("C06.winding", vImplies(far, vWind(out, pr) == want))
 	// entirely inside: returned unchanged; entirely outside: nothing
 	p := in[0]
 	inside := true
